@@ -146,14 +146,14 @@ Definition send_tight_pieces (p : tight_params) (scr : grid) (pieces : list tpie
                      end) pieces).
 
 (* entry point used by the driver (replaces Tight.send_tight_top): sfb = server framebuffer *)
-Definition tight_params_of (strict : bool) (sbypp bypp : nat) (bpp depth be tc rmax gmax bmax rs gs bs level quality : Z) : tight_params :=
+Definition tight_params_of (strict swapfix : bool) (sbypp bypp : nat) (bpp depth be tc rmax gmax bmax rs gs bs level quality : Z) : tight_params :=
   let lv := if (level <? 0)%Z then c_TIGHT_DEFAULT_COMPRESSION else level in
   let jpeg := (0 <=? quality)%Z in
-  mkTP bypp (tight_pack24 strict bpp depth tc rmax gmax bmax) (negb (be =? 0)%Z) rs gs bs (tight_conf_index jpeg lv) jpeg (Nat.eqb sbypp 1).
+  mkTP bypp (tight_pack24 strict bpp depth tc rmax gmax bmax) (negb (be =? 0)%Z) rs gs bs (tight_conf_index jpeg lv) jpeg (Nat.eqb sbypp 1) swapfix.
 
-Definition send_tight_session (strict : bool) (sbypp bypp : nat) (bpp depth be tc rmax gmax bmax rs gs bs level quality : Z) (lastrect : bool)
+Definition send_tight_session (strict swapfix : bool) (sbypp bypp : nat) (bpp depth be tc rmax gmax bmax rs gs bs level quality : Z) (lastrect : bool)
            (x y w h : nat) (scr sfb : grid) : res (list wrect) :=
-  let p := tight_params_of strict sbypp bypp bpp depth be tc rmax gmax bmax rs gs bs level quality in
+  let p := tight_params_of strict swapfix sbypp bypp bpp depth be tc rmax gmax bmax rs gs bs level quality in
   if lastrect then
     match tight_split (S (w * h)) sfb x y w h with
     | Some pieces => send_tight_pieces p scr pieces
